@@ -17,6 +17,7 @@ import SwimVerif.Proofs.HandlersInv
 import SwimVerif.Proofs.AssocList
 import SwimVerif.Model.HandlersIO
 import SwimVerif.Proofs.HandlersFlush
+import SwimVerif.Proofs.HandlersMap
 
 set_option linter.unusedVariables false
 namespace SwimVerif.Handlers
@@ -339,6 +340,87 @@ theorem C06_sync_triggers_nothing (trig : Trig) (id : Nat) (st : St) :
       = (st.addDirty id, .ok) := by
   simp [afterMod, Generated.valueSyncDirty, Generated.valueSyncTrigger, Generated.mapSyncDirty,
     Generated.mapSyncTrigger]
+
+/-! ### `transform_entry`: the triggered handler and its true previous entry, in all four arms -/
+
+/-- `HandlerContext::transform_entry(lane, k, f)` on a map lane holding `x`:
+* `f` returns a value (entry present: replace; entry ABSENT: insert) ⇒ exactly one `on_update k prev new` runs at once,
+  `prev` being the entry held immediately before — `none` for an insertion —, in the state where the lane holds the new
+  value and the slot is consumed;
+* `f` returns `None` for a present entry ⇒ exactly one `on_remove k old`;
+* `f` returns `None` for an absent entry ⇒ nothing changes, nothing runs, nothing is marked dirty. -/
+theorem C06_transform_entry_sees_true_previous (P : Prog) (d : Nat) (m k : Nat) (f : Xf) (st : St) (x : MLane)
+    (hmn : m < nm) (hm : st.maps[m]? = some x) :
+    (∀ v2, f.app (alGet x.content k) = some v2 →
+      run (trigD P (d + 1)) (.mxf m k f) st =
+        eval (refD P d) (bracket (.enUpd m k (alGet x.content k) v2) (getH P.onUpd m) (.exUpd m))
+          ({ st with maps := st.maps.set m { content := alSet x.content k v2, previous := none } }.addDirty (mid m))) ∧
+    (∀ old, alGet x.content k = some old → f.app (some old) = none →
+      run (trigD P (d + 1)) (.mxf m k f) st =
+        eval (refD P d) (bracket (.enRem m k old) (getH P.onRem m) (.exRem m))
+          ({ st with maps := st.maps.set m { content := alErase x.content k, previous := none } }.addDirty (mid m))) ∧
+    (alGet x.content k = none → f.app none = none → run (trigD P d) (.mxf m k f) st = (st, .ok)) := by
+  have hr := readM_of st m x hm
+  refine ⟨?_, ?_, ?_⟩
+  · intro v2 hf
+    rw [run_mxf_update _ m k f st v2 (by rw [hr]; exact hf)]
+    exact C06_update_sees_true_previous P d m k v2 st x hmn hm
+  · intro old hk hf
+    rw [run_mxf_remove _ m k f st old (by rw [hr, hk]; exact hf) (by rw [hr]; exact hk)]
+    exact C06_remove_sees_true_previous P d m k old st x hmn hm hk
+  · intro hk hf
+    exact run_mxf_nochange _ m k f st (by rw [hr, hk]; exact hf) (by rw [hr]; exact hk)
+
+/-- All four arms are reachable with the closures of the harness (so none of the cases above is vacuous). -/
+theorem C06_transform_entry_arms (d n old : Int) :
+    (Xf.inc d).app none = some d ∧ (Xf.inc d).app (some old) = some (old + d) ∧
+    Xf.del.app (some old) = none ∧ Xf.del.app none = none ∧
+    (Xf.bump d).app (some old) = some (old + d) ∧ (Xf.bump d).app none = none ∧
+    (Xf.flip n).app (some old) = none ∧ (Xf.flip n).app none = some n := by
+  simp [Xf.app]
+
+/-! ### `@drop(n)` / `@take(n)`: removals one at a time, in ascending key order -/
+
+/-- A take/drop command executed in state `st` on map lane `m`:
+* the keys it removes are, in this order, the first `n` (drop) resp. all but the first `n` (take) of the keys of the
+  map sorted in ascending key order (numeric: 2 before 10); they are keys of the map;
+* `MapLaneRemoveMultiple` with keys `k :: rest` is: the single removal `MapLaneRemove k` **run to completion** — i.e.
+  (by `C06_remove_sees_true_previous`) `on_remove k old` and everything it triggers, in the state left by the removals
+  before it — and only then the remaining keys `rest`, in order; a failure ends the whole command;
+* altogether the command computes the reference `evalRem` over the sorted keys. -/
+theorem C06_drop_take_removals_in_key_order (P : Prog) (d : Nat) (m : Nat) (drop : Bool) (n : Nat) (st : St) :
+    (dropTakeKeys (st.readM m) drop n).Pairwise (· ≤ ·) ∧
+    (∀ k ∈ dropTakeKeys (st.readM m) drop n, k ∈ (st.readM m).map (·.1)) ∧
+    dropTakeKeys (st.readM m) true n ++ dropTakeKeys (st.readM m) false n = sortNat ((st.readM m).map (·.1)) ∧
+    (∀ k rest s, run (trigD P d) (.remMulti m (k :: rest)) s =
+        seqThen (run (trigD P d) (.mrem m k) s) (run (trigD P d) (.remMulti m rest))) ∧
+    (∀ s, run (trigD P d) (.remMulti m []) s = (s, .ok)) ∧
+    run (trigD P d) (dropTakeH st m drop n) st = evalRem (refD P d) m (dropTakeKeys (st.readM m) drop n) st := by
+  refine ⟨dropTakeKeys_sorted _ _ _, dropTakeKeys_mem _ _ _, dropTakeKeys_split _ _, ?_, ?_, ?_⟩
+  · intro k rest s
+    rw [run_remMulti_cons]
+    have : run (trigD P d) (.mrem m k) s = trigD P d (mid m) ((s.remM m k).addDirty (mid m)) := by
+      rw [run_eq_eval]; rfl
+    rw [this]
+  · intro s; exact run_remMulti_nil _ m s
+  · rw [C06_run_eq_reference]; rfl
+
+/-- Key order is numeric, not textual: from `{10, 2, 1}` `Drop(2)` removes 1 then 2, `Take(1)` removes 2 then 10. -/
+example : dropTakeKeys [(10, 5), (2, 6), (1, 7)] true 2 = [1, 2] ∧ dropTakeKeys [(10, 5), (2, 6), (1, 7)] false 1 = [2, 10] := by
+  decide
+
+/-- The handlers of a `Drop(2)` on `{1=7, 2=6, 10=5}`: `on_remove` of key 1 sees key 2 still there, `on_remove` of
+key 2 does not see key 1 any more. -/
+example :
+    let P : Prog := { demoProg with onRem := [.fby (.mgetLog 0 1) (.mgetLog 0 2), .seqNil] }
+    let st := ((St.init.updM 0 10 5).updM 0 2 6).updM 0 1 7
+    renderTrace (run (trigD P 8) (dropTakeH st 0 true 2) { st with maps := st.maps.map fun x => { x with previous := none } }).1.trace
+      = "<R0.1(7) q0.1:- q0.2:6 >R0 <R0.2(6) q0.1:- q0.2:- >R0" := by decide
+
+/-- `transform_entry` on an absent key with an inserting closure runs `on_update k - new`. -/
+example : renderTrace (run (trigD { demoProg with onUpd := [.emit (.eff 3), .seqNil] } 8)
+      (.fby (.mxf 0 7 (.inc 1)) (.fby (.mxf 0 7 (.inc 1)) (.mwithLog 0 7))) St.init).1.trace
+    = "<U0.7(-,1) e3 >U0 <U0.7(1,2) e3 >U0 y0.7:2" := by decide
 
 /-! ### Renamed lanes: the lifecycle is found through the FIELD name, whatever the external name -/
 
